@@ -115,7 +115,9 @@ pub fn on_read_state(m: &mut Monitors, nodes: &[Node], v: usize, rs: &ReadState,
         .u(raw.raft.state as u64)
         .u(nodes[v].conf.voters.len() as u64)
         .u(nodes[v].conf.is_joint() as u64)
-        .u(answered_by_stale as u64);
+        .u(answered_by_stale as u64)
+        .u((rs.index - rec.g_issue.min(rs.index)).min(3));
+    super::cluster_fp(nodes, &mut f);
     m.stats.hit("C08", f.get());
     if rec.inc != nodes[v].inc && rec.node == v {
         // same node, later incarnation (a late MsgReadIndexResp): still "the node where the
